@@ -270,6 +270,13 @@ theorem mutate_pres (E : Env) (st : St) (m : Mutation) (hP : P st.H) : P (mutate
       · exact hP
       · exact fire_pres P hadd hrm E st.H _ o _ _ _ hP
     · exact hP
+  | announce o n guard =>
+    simp only [mutate]
+    split
+    · split
+      · exact hP
+      · exact fire_pres P hadd hrm E st.H _ o _ _ _ hP
+    · exact hP
   | listAppend c x =>
     simp only [mutate]; split
     · exact runCont_pres P hadd hrm E st _ c _ hP
